@@ -26,7 +26,9 @@ CLAIMED = {
 
 CORR = ("The model is tied to /repo on every run: the harness runs the implementation from /repo/src on generated inputs, "
         "serialises inputs and observations to a Coq file and Coq itself (vm_compute) compares the model's result with each "
-        "observation; an independent Python oracle states the property directly for failing-input search. ")
+        "observation; an independent Python oracle states the property directly for failing-input search (also on what the command-line "
+        "scripts write, on several input files, after I/O errors and on repeated calls in one process, where the property's "
+        "observable passes through them). ")
 NOTE = ("Trusted: Coq 8.16.1 kernel + VM; the hand-written Gallina reading of the Python code (DESIGN.md 3.2, App. C); the "
         "serializer and Corr comparison functions; generator reach (counts in the evidence). Print Assumptions for every "
         "property theorem: Closed under the global context (copied into the evidence on every run). ")
@@ -82,7 +84,8 @@ PIPE = ("The whole remapping pipeline (lookup, labelling, trim_large_overhangs, 
         "haplotype, name), ChrNamer, smart sort, junction statistics) is one executable Gallina function `remap`; on every run "
         "Coq compares its full output (assemblies, scaffold names/tags/haplotypes/ranks/original names/rows, cuts, breaks, "
         "joins, per-assembly stats, or error) with BuildAssembly on several hundred generated (input, Pretext) pairs plus the "
-        "repository's specimens. ")
+        "repository's specimens; the AGP / TPF files the command itself writes for the case are read back and judged by the "
+        "property's oracle as well (no file opened twice, scaffolds as written). ")
 CLAIMED.update({
     "C01": ("Coq theorem C01_conservation, for ALL input assemblies with well-formed pairwise-distinct contigs and ALL Pretext "
             "assemblies, texel sizes, prefixes and tags, no size bound: if `remap` returns Ok then for every contig name and base "
